@@ -439,7 +439,11 @@ def run_schedule(scn, preempt, first):
                                               result={k: tuple(v) for k, v in r.items()}, snap=mine[0][2] if mine else None,
                                               served=next(k_ for k_, o_ in enumerate(w.opened) if o_ is mine[0]) if mine else None))
                 return f
-            sch.run([prog(0), prog(1)])
+            # half of the schedules run on threads the `threading` module has not registered (started by _thread, as a C
+            # extension or an embedding server would): concurrent callers are concurrent callers, whoever created them
+            raw = harness.chash([scn, list(preempt), first])[-1] in "01234567"
+            sch.raw_threads = raw
+            sch.run([prog(0), prog(1)], raw_threads=raw)
         finally:
             pc._wn.lock = real_lock
             for nm, lk in other_locks.items():
@@ -489,6 +493,9 @@ def run_sched_case(case, acc, seen):
     viols = []
     ctx = f"scenario={case['scn']} preempt={case['preempt']} first={case['first']} trace={''.join(map(str, sch.trace))}"
     acc.count("schedules_run")
+    if getattr(sch, "raw_threads", False):
+        acc.count("schedules_run_on_threads_unknown_to_the_threading_module")
+        ctx += " [threads started with _thread.start_new_thread]"
     if sch.error:
         acc.inconclusive = ctx + " watchdog"
     for i, r in enumerate(sch.results):
